@@ -112,5 +112,11 @@ NormZ(v) ==
   ELSE LET keep == {i \in 1..Len(v.f) : ~(v.f[i].card = "one" /\ v.f[i].e[1].v.k \in {"double", "float"} /\ IsZero(NormZ(v.f[i].e[1].v).b))}
            ks == [r \in 1..Cardinality(keep) |-> CHOOSE i \in keep : Cardinality({j \in keep : j < i}) = r - 1] IN
        PMsgV([r \in 1..Len(ks) |-> [v.f[ks[r]] EXCEPT !.e = [j \in 1..Len(@) |-> [@[j] EXCEPT !.v = NormZ(@)]]]])
+\* a document without its null-valued object members (null map values: the converter starts the entry and drops it)
+RECURSIVE DropNull(_)
+DropNull(d) ==
+  IF d.k = "obj" THEN LET keep == SelectSeq(d.e, LAMBDA m : m.v.k # "null") IN [d EXCEPT !.e = [i \in 1..Len(keep) |-> [keep[i] EXCEPT !.v = DropNull(@)]]]
+  ELSE IF d.k = "arr" THEN [d EXCEPT !.e = [i \in 1..Len(d.e) |-> [d.e[i] EXCEPT !.v = DropNull(@)]]]
+  ELSE d
 J2PDoc(d, root, msgs, o, dbl) == IF d.k = "obj" THEN J2PMsg(d, root, msgs, o, dbl) ELSE Unspec("RootNotAnObject")
 =============================================================================
